@@ -8,6 +8,8 @@ cd "$(dirname "$0")/.."
 src="$(readlink -f "$1")"; name="$2"
 export GOFLAGS=-mod=mod GOPROXY=off GOSUMDB=off GOTOOLCHAIN=local
 demo_dir=$(python3 -c "import json;print(json.load(open('$src/meta.json'))['demo_dir'])")
+# demos of data-race seeds only fail under the race detector (meta.json demo_cmd says so)
+race=$(python3 -c "import json;m=json.load(open('$src/meta.json'));print('-race' if ('-race' in m.get('demo_cmd','') or m.get('race_required') is True) else '')")
 wt=$(mktemp -d /tmp/seedverify.XXXXXX)
 git -C /repo worktree add -q --detach "$wt" HEAD || exit 2
 log="$wt.log"; : > "$log"
@@ -16,12 +18,12 @@ cleanup() { git -C /repo worktree remove --force "$wt" 2>/dev/null; }
 demo="$wt/$demo_dir/zz_seed_demo_test.go"
 cp "$src/demo_test.go" "$demo"
 run=$(grep -o 'func Test[A-Za-z0-9_]*' "$src/demo_test.go" | sed 's/func //' | paste -sd'|')
-( cd "$wt" && go test -vet=off -count=1 -run "^($run)\$" "./$demo_dir/" ) >> "$log" 2>&1; pristine=$?
+( cd "$wt" && go test $race -vet=off -count=1 -run "^($run)\$" "./$demo_dir/" ) >> "$log" 2>&1; pristine=$?
 rm -f "$demo"
 if ! git -C "$wt" apply "$src/patch.diff" >> "$log" 2>&1; then res "FAIL patch does not apply"; cleanup; exit 1; fi
 ( cd "$wt" && go build ./... && go test -vet=off -count=1 -timeout 25m ./... ) >> "$log" 2>&1; suite=$?
 cp "$src/demo_test.go" "$demo"
-( cd "$wt" && go test -vet=off -count=1 -timeout 5m -run "^($run)\$" "./$demo_dir/" ) >> "$log" 2>&1; mutated=$?
+( cd "$wt" && go test $race -vet=off -count=1 -timeout 5m -run "^($run)\$" "./$demo_dir/" ) >> "$log" 2>&1; mutated=$?
 head=$(git -C /repo rev-parse --short HEAD)
 cleanup
 if [ $pristine -eq 0 ] && [ $suite -eq 0 ] && [ $mutated -ne 0 ]; then
